@@ -97,7 +97,9 @@ def build(case):
         if fam:
             n = len(case["a"])
             a = np.array(case["a"], dtype=np.float64)
-            b = np.array(case["b"][:n] + [1.0] * (n - len(case["b"][:n])), dtype=np.float64)
+            # the second array may deliberately be longer or shorter than the first (must then be refused, or work)
+            nb = max(0, n + case.get("b_len_delta", 0))
+            b = np.array((case["b"] + [1.0] * 8)[:nb], dtype=np.float64)
             variant = case.get("variant", 1)
             if variant == 2:  # location fixed by the constructor, scales delayed
                 return cls(lo, hi, case["a0"], None), lo, hi, (b,)
@@ -112,10 +114,9 @@ def build(case):
             if variant == 2:  # p fixed, n delayed
                 ns = np.array(case["ns"], dtype=np.int32)
                 return M.Binomial(None, case["p"]), 0, (min(case["ns"]) if case["ns"] else -1), (ns,)
-            if variant == 3:  # both delayed
-                m = min(len(case["ns"]), len(case["ps"]))
-                ns = np.array(case["ns"][:m], dtype=np.int32)
-                return M.Binomial(), 0, (min(case["ns"][:m]) if m else -1), (ns, ps[:m])
+            if variant == 3:  # both delayed; the two arrays may differ in length (must then be refused, or work)
+                ns = np.array(case["ns"], dtype=np.int32)
+                return M.Binomial(), 0, (min(case["ns"]) if case["ns"] else -1), (ns, ps)
             return M.Binomial(case["n"]), 0, case["n"], (ps,)
         return M.Binomial(case["n"], case["p"]), 0, case["n"], ()
     if k == "bernoulli":
@@ -202,6 +203,33 @@ def run_case(case):
         raise Violation("C19/py/%s/ans_roundtrip_mismatch" % kind, "encoded %s decoded %s" % (chosen, got))
     if not c.is_empty():
         raise Violation("C19/py/%s/ans_not_empty_after_roundtrip" % kind, "words left: %s" % list(c.get_compressed()))
+    # ---- further rounds with other symbols of the support (deterministic functions of the case): symbols near
+    # the location parameter, where a real message would be, and a spread over the support
+    span = hi - lo
+    offs_l = [int(o) for o in case.get("offs", [])] or [0]
+    for rnd in range(1, 4):
+        other = []
+        for i in range(n):
+            if rnd == 1 and case["kind"] in ("gaussian", "laplace", "cauchy"):
+                loc = case["a0"] if (fam and case.get("variant", 1) == 2) else (case["a"][i] if i < len(case["a"]) else case["a"][0])
+                centre = int(round(loc)) if isinstance(loc, float) and math.isfinite(loc) and abs(loc) < 1e9 else lo
+                sym = min(hi, max(lo, centre + (i % 5) - 2))
+            else:
+                sym = lo + (offs_l[(i + rnd) % len(offs_l)] + rnd * (span // 3 + 1) + i * 7) % (span + 1)
+            other.append(sym)
+        osyms = np.array(other, dtype=np.int32)
+        c = AnsCoder()
+        try:
+            c.encode_reverse(osyms, model, *params)
+            got = c.decode(model, *params) if fam else c.decode(model, n)
+        except BaseException as e:  # noqa: BLE001
+            if not clean_failure(e):
+                raise
+            raise Violation("C19/py/%s/support_symbol_not_encodable" % kind,
+                            "model accepted by the constructor, but coding support symbols %s failed: %s %s" % (other, type(e).__name__, str(e)[:200]))
+        got = [int(x) for x in np.atleast_1d(got)]
+        if got != other:
+            raise Violation("C19/py/%s/ans_roundtrip_mismatch" % kind, "encoded %s decoded %s" % (other, got))
     # ---- range coder round trip -------------------------------------------------------------
     try:
         e_ = RangeEncoder()
@@ -369,6 +397,9 @@ def quantized_case(draw):
         case["variant"] = draw(st.integers(1, 3))
         case["a0"] = draw(par)
         case["b0"] = draw(spar)
+        case["b_len_delta"] = draw(st.sampled_from([0, 0, 0, 0, 0, 1, 2, -1]))
+        if case["b_len_delta"] > 0:
+            case["b"] = case["b"] + draw(st.lists(spar, min_size=case["b_len_delta"], max_size=case["b_len_delta"]))
     return case
 
 
